@@ -5574,8 +5574,11 @@ def merge_parts(parts, reassign="voice"):
     and quarter division.
 
     All elements are merged, except elements with class:Barline,
-    Page, System, Clef, Measure, TimeSignature, KeySignature
-    that are only taken from the first part.
+    Page, System, Clef, Measure, TimeSignature, KeySignature,
+    DaCapo, Fine, Fermata, Ending, Tempo
+    that are only taken from the first part (when staves are
+    reassigned, i.e., if `reassign` is "staff" or "auto", the clefs
+    of all parts are kept, each one on its new staff).
 
     WARNING: this modifies the elements in the input, so the
     original input should not be used anymore.
